@@ -22,6 +22,26 @@ func (f File) customRecordTypes() map[string]struct{} {
 	return out
 }
 
+// fixedSizes reports the wire size of every type whose encoding has a
+// constant length: fixed width primitives and enums.
+func (f File) fixedSizes() map[string]uint8 {
+	out := make(map[string]uint8, len(fixedSizeTypes)+len(f.Enums))
+	for typ, sz := range fixedSizeTypes {
+		out[typ] = sz
+	}
+	for _, en := range f.Enums {
+		out[en.Name] = fixedSizeTypes[en.SimpleType]
+	}
+	return out
+}
+
+func (gs GenerateSettings) aliased(simpleTyp string) string {
+	if alias, ok := gs.importTypeAliases[simpleTyp]; ok {
+		return alias
+	}
+	return simpleTyp
+}
+
 func (f File) usedTypes() map[string]bool {
 	out := make(map[string]bool)
 	for _, st := range f.Structs {
